@@ -281,7 +281,14 @@ func c11case(c *wk.Ctx, idx int, r *rand.Rand, h c11history) {
 		// the adopted salt must be in the session store
 		e.quiesce(time.Second)
 		if _, serr := os.Stat(e.sess); serr == nil {
-			if s, lerr := session.NewFromFile(e.sess).Load(); lerr != nil || (st.Rejected > 0 || st.Announce) && s.Salt != newSalt {
+			// the client rewrites the file whenever it adopts a salt (e.g. when an acknowledgement is rejected later);
+			// a read that races with such a rewrite sees a torn file, which the store property allows — read again
+			s, lerr := session.NewFromFile(e.sess).Load()
+			for retry := 0; retry < 50 && (lerr != nil || (st.Rejected > 0 || st.Announce) && s.Salt != newSalt); retry++ {
+				time.Sleep(10 * time.Millisecond)
+				s, lerr = session.NewFromFile(e.sess).Load()
+			}
+			if lerr != nil || (st.Rejected > 0 || st.Announce) && s.Salt != newSalt {
 				got := int64(0)
 				if s != nil {
 					got = s.Salt
